@@ -97,6 +97,74 @@ def run(ctx):
             nontriv += any(st['inv'] for sh in s_inv.values() for st in sh['stmts'])
         if len(samples) < 1 and len(g) < 10 and any(st['inv'] for sh in s_inv.values() for st in sh['stmts']):
             samples.append({"nt": to_nt(g), "shexc_with_inverse": r_inv[2]})
+    # ---------------- examples_mode must not touch the incoming constraints (links from nodes that are no instances included)
+    stats["examples_pairs"] = 0
+    ex_cases = []
+    for i in range(60 if ctx.tier == "quick" else 900):
+        g = gen.gen_graph(rng, bnodes=rng.random() < 0.3)
+        # incoming links from nodes without a class
+        tgt = [s_ for s_, p_, o_ in g if p_ == RDF_TYPE and s_[0] == 'I']
+        for k in range(rng.randint(1, 3)):
+            if tgt:
+                g.append((I('untyped%d' % k), EX + rng.choice(['p0', 'cites']), rng.choice(tgt)))
+        g = list(dict.fromkeys(g))
+        cfg = gen.gen_cfg(rng, g, presentation=False, allow_cap=False, allow_ignore=False)
+        cfg.update(report='mixed', disable_comments=False, inverse=True)
+        ex_cases += [(g, dict(cfg, examples=None)), (g, dict(cfg, examples=rng.choice(['shape', 'cons', 'all'])))]
+    ex_res = pipeline.run_impl(ex_cases)
+    for i in range(0, len(ex_cases), 2):
+        (g, cfg_e), r0, r1 = ex_cases[i + 1], ex_res[i], ex_res[i + 1]
+        stats["examples_pairs"] += 1
+        if r0[0] != 'ok' or r1[0] != 'ok':
+            viol.append({"what": "implementation gave no result", "outcomes": [list(r0[:3]), list(r1[:3])], **pipeline.case_json(g, cfg_e)})
+            continue
+        a = {sh['label']: (sh['n'], sorted((st['inv'],) + stmt_sig(st) for st in sh['stmts'])) for sh in r0[1]['shapes']}
+        b = {sh['label']: (sh['n'], sorted((st['inv'],) + stmt_sig(st) for st in sh['stmts'])) for sh in r1[1]['shapes']}
+        if a != b:
+            lab = next(l for l in set(a) | set(b) if a.get(l) != b.get(l))
+            viol.append({"what": "with inverse_paths, examples_mode=%s changes the constraints of %s" % (cfg_e['examples'], lab),
+                         "without_examples": repr(a.get(lab))[:600], "with_examples": repr(b.get(lab))[:600], **pipeline.case_json(g, cfg_e)})
+    # ---------------- shapes removed as empty (instantiation namespace ignored, so a class can lose every constraint): the incoming
+    # constraints of the shapes that stay are those of the run that keeps empty shapes, minus references to the removed ones
+    stats["removal_pairs"] = 0
+    rm_cases = []
+    for i in range(60 if ctx.tier == "quick" else 900):
+        g = iri_only_graph(rng)
+        if i % 2:
+            # a class without any feature (its shape is removed) next to classes whose instances are pointed to by other nodes
+            for k in range(rng.randint(1, 2)):
+                g.append((I('lonely%d' % k), RDF_TYPE, I('Lonely')))
+            tgt = [s_ for s_, p_, o_ in g if p_ == RDF_TYPE and s_[1] != EX + 'lonely0' and s_[1] != EX + 'lonely1']
+            for k in range(rng.randint(1, 4)):
+                if tgt:
+                    g.append((I('src%d' % k), EX + 'points', rng.choice(tgt)))
+                    if rng.random() < 0.6:
+                        g.append((rng.choice(tgt), EX + 'likes', I('lonely0')))      # an outgoing reference to the shape that will be removed
+            g = list(dict.fromkeys(g))
+        cfg = gen.gen_cfg(rng, g, presentation=False, allow_cap=False, allow_ignore=False)
+        cfg.update(report='mixed', disable_comments=False, inverse=True, ignore_ns=[RDF], inst_prop=RDF_TYPE, target_mode='all', targets=None)
+        if i % 2:
+            cfg['th'] = (0, 1)
+        rm_cases += [(g, dict(cfg, remove_empty=True)), (g, dict(cfg, remove_empty=False))]
+    rm_res = pipeline.run_impl(rm_cases)
+    for i in range(0, len(rm_cases), 2):
+        (g, cfg_r), r1, r0 = rm_cases[i], rm_res[i], rm_res[i + 1]
+        stats["removal_pairs"] += 1
+        if r0[0] != 'ok' or r1[0] != 'ok':
+            viol.append({"what": "implementation gave no result", "outcomes": [list(r0[:3]), list(r1[:3])], **pipeline.case_json(g, cfg_r)})
+            continue
+        kept = {sh['label'] for sh in r1[1]['shapes']}
+        full = {sh['label']: sh for sh in r0[1]['shapes']}
+        if kept == set(full):
+            continue
+        for sh in r1[1]['shapes']:
+            ref = lambda st: any(t.startswith('%<') and t[2:-1] not in kept for t in st['types'])
+            want = sorted(stmt_sig(st, False) for st in full[sh['label']]['stmts'] if st['inv'] and not ref(st))
+            got = sorted(stmt_sig(st, False) for st in sh['stmts'] if st['inv'])
+            if got != want:
+                viol.append({"what": "removing empty shapes changes incoming constraints (of a shape that stays) which do not refer to a removed shape",
+                             "label": sh['label'], "with_removal": repr(got)[:500], "without_removal": repr(want)[:500], "removed": sorted(set(full) - kept),
+                             **pipeline.case_json(g, cfg_r)})
     # every incoming figure against the Lean Spec (covers graphs with blank nodes, where the reversed graph is no oracle)
     if ctx.spec_ok:
         inv_cases = [cases[i] for i in range(0, len(cases), 3)]
@@ -107,6 +175,7 @@ def run(ctx):
                 viol.append(v)
     return base.std_result(ctx, cases, viol, dis, base.known_lines(kf, set()), stats, nontriv, samples,
                            "per random graph (75 % IRI-only) and configuration: three fresh Shapers - G with inverse_paths, G without, "
-                           "reverse(G) without; non-trivial = the inverse run has at least one incoming constraint", DEPS,
+                           "reverse(G) without; pairs examples_mode off / on with incoming links from untyped nodes; pairs remove_empty_shapes on / off "
+                           "with the instantiation namespace ignored; non-trivial = the inverse run has at least one incoming constraint", DEPS,
                            ["graphs with blank nodes are compared on the direct part only (blank-node subjects of incoming links get no shape "
                             "reference, by design)"])
